@@ -12,6 +12,9 @@ RULE = ('Hypothesis: lists of 1..10 values: ints (|x| <= 10^6), floats '
         '"mapping"; all ten statistics read as Python objects on the last '
         'element.  Non-trivial: >= 3 non-None values not all equal, or '
         'all-equal floats (the rounding case).  Distinct = case hash.')
+RULE += (
+         'Also: the summarised variable named like sequence variables '
+         '(item, key, count, length, index); no_push_item. ')
 ASSUMPTIONS = [
     'count, min, max exact; total exact for ints and within tolerance for '
     'floats; mean within 1e-9*(1+mean square), variance / variance-n within '
